@@ -1036,6 +1036,18 @@ fn build_rcl(k: usize, strs: &[String]) -> Option<Box<dyn Subject>> {
             let mut t = strs[i].clone();
             t.pop();
             probes.push(t);
+            // the same string shifted by 1..7 bytes (padded with its last byte): equal to a stored
+            // string only if a comparison reads the data at the wrong byte offset
+            if strs[i].is_ascii() && strs[i].len() > 8 {
+                let last = strs[i].chars().last().unwrap();
+                for d in 1..8 {
+                    let mut t: String = strs[i][d..].to_string();
+                    for _ in 0..d {
+                        t.push(last);
+                    }
+                    probes.push(t);
+                }
+            }
         }
     }
     boxed(b.build(), probes)
@@ -1874,6 +1886,17 @@ fn gen_rcl(ctx: &mut Ctx, max_n: usize) -> (String, String) {
                 .collect::<String>()
         })
         .collect();
+    if ctx.rng.chance(1, 4) {
+        // long runs of one byte after a distinct first byte (word-at-a-time comparisons, data
+        // that is not word-aligned after an ε-copy / mmap load)
+        for s in strs.iter_mut() {
+            if ctx.rng.chance(2, 3) {
+                let head = *ctx.rng.pick(&["a", "b", "c"]);
+                let body = *ctx.rng.pick(&["a", "b"]);
+                *s = format!("{}{}", head, body.repeat(9 + ctx.rng.usize_below(60)));
+            }
+        }
+    }
     let sorted = ctx.rng.chance(3, 4);
     if sorted {
         strs.sort();
